@@ -165,6 +165,10 @@ func (r *Run) user(a Action) {
 		if r.WorkloadVersion() == ver {
 			return
 		}
+		if a.Arg == UserRollback && KnownOpen[FindingRevertBeforeObserved] && r.revertBeforeObserved() {
+			r.W.Excluded[FindingRevertBeforeObserved]++
+			return
+		}
 		templateOf(o).Spec.Containers[0].Image = "app:" + ver
 		if s.UseRolloutID {
 			l := o.GetLabels()
@@ -270,6 +274,38 @@ func (r *Run) user(a Action) {
 	}
 }
 
+// FindingRevertBeforeObserved: canary-style Deployment with traffic routing; the user reverts the
+// template to the stable version before the Rollout controller has recorded the release being
+// reverted. The Rollout then runs a "release" whose canary revision equals the stable revision,
+// the finder reports no PodTemplateHash (IsInRollback branch) and DoTrafficRouting waits for it
+// forever (StepTrafficRouting livelock). See known_findings.json.
+const FindingRevertBeforeObserved = "c07-livelock-revert-to-stable-before-release-observed"
+
+// KnownOpen lists the recorded (not repaired) findings whose input class the user model steers
+// away from, so that the search continues behind them. Exclusions are counted.
+var KnownOpen = map[string]bool{FindingRevertBeforeObserved: true}
+
+// revertBeforeObserved: the workload is marked in-progressing but the Rollout has not yet
+// recorded the revision currently in the workload as its canary revision.
+func (r *Run) revertBeforeObserved() bool {
+	o := r.workload()
+	if o == nil {
+		return false
+	}
+	if _, ok := o.GetAnnotations()[util.InRolloutProgressingAnnotation]; !ok {
+		return false
+	}
+	ro := r.W.Rollout(r.S.Namespace, r.S.Name)
+	if ro == nil {
+		return false
+	}
+	if ro.Status.Phase != v1beta1.RolloutPhaseProgressing {
+		return true
+	}
+	cond := util.GetRolloutCondition(ro.Status, v1beta1.RolloutConditionProgressing)
+	return cond == nil || cond.Reason == v1alpha1.ProgressingReasonInitializing
+}
+
 // ---------- fair completion ----------
 
 // Outcome of Complete.
@@ -303,6 +339,10 @@ func (r *Run) Complete(budget int) Outcome {
 			r.Apply(Action{Kind: "user", Arg: UserApprove})
 			continue
 		}
+		if ro := w.Rollout(r.S.Namespace, r.S.Name); ro != nil && ro.Spec.Strategy.Paused && ro.DeletionTimestamp == nil {
+			r.Apply(Action{Kind: "user", Arg: UserResume})
+			continue
+		}
 		ok, detail := r.Terminal()
 		return Outcome{Terminal: ok, Stuck: !ok, Reconciles: w.Reconciles - start, Detail: detail}
 	}
@@ -328,9 +368,6 @@ func (r *Run) Terminal() (bool, string) {
 		return false, fmt.Sprintf("BatchRelease still exists (phase %s)", br.Status.Phase)
 	}
 	if ro != nil {
-		if ro.Spec.Strategy.Paused && ro.Status.Phase == v1beta1.RolloutPhaseProgressing {
-			return true, "paused by user"
-		}
 		switch ro.Status.Phase {
 		case v1beta1.RolloutPhaseHealthy, v1beta1.RolloutPhaseDisabled:
 		default:
@@ -358,3 +395,29 @@ func (r *Run) Terminal() (bool, string) {
 }
 
 var _ = v1alpha1.ProgressingReasonCompleted
+
+// LivelockClass names where a non-terminating run is parked (phase / reason / step state and
+// recognisable causes), so that different liveness failures get different signatures.
+func (r *Run) LivelockClass() string {
+	ro := r.W.Rollout(r.S.Namespace, r.S.Name)
+	if ro == nil {
+		return "rollout-gone"
+	}
+	cls := strings.ToLower(string(ro.Status.Phase))
+	if cond := util.GetRolloutCondition(ro.Status, v1beta1.RolloutConditionProgressing); cond != nil && ro.Status.Phase == v1beta1.RolloutPhaseProgressing {
+		cls += "-" + strings.ToLower(cond.Reason)
+	}
+	if sub := ro.Status.GetSubStatus(); sub != nil {
+		cls += "-" + strings.ToLower(string(sub.CurrentStepState))
+		if sub.FinalisingStep != "" {
+			cls += "-" + strings.ToLower(string(sub.FinalisingStep))
+		}
+		if sub.CurrentStepState == v1beta1.CanaryStepStateTrafficRouting && sub.PodTemplateHash == "" {
+			cls += "-podtemplatehash-empty"
+		}
+	}
+	if br := r.W.BatchRelease(r.S.Namespace, r.S.Name); br != nil {
+		cls += "-br-" + strings.ToLower(string(br.Status.Phase)) + "-" + strings.ToLower(string(br.Status.CanaryStatus.CurrentBatchState))
+	}
+	return cls
+}
